@@ -172,6 +172,7 @@ PROPS = {
         "level_note": "companion count inferred from struct message fields (cont/clen), locals loaded from them, or the integer parameter following an iovec parameter",
         "rules": [
             {"run": rules_lin.run_linmsg, "floor": 30, "use_anchor_files": True},
+            {"run": rules_path.run_destindep, "floor": 1, "use_anchor_files": True},
             {"run": rules_path.run_fragstate, "floor": 1, "use_anchor_files": True},
             {"run": rules_path.run_fragall, "floor": 3, "use_anchor_files": True},
             {"run": rules_path.run_arraybound, "floor": 2, "use_anchor_files": True},
@@ -312,6 +313,7 @@ PROPS = {
         "level_note": "destructor-only traits of non-copyable C++ unique arrays are accepted (noted in evidence)",
         "rules": [
             {"run": rules_lin.run_linfini, "floor": 4},
+            {"run": rules_lin.run_linident, "floor": 18, "ctx": {"files": ["mptcore/misc/identifier.c"]}},
             {"run": rules_traits.run_ctorfail, "floor": 2},
             {"run": rules_traits.run_finimatch, "floor": 1},
             {"run": rules_traits.run_ctorcover, "floor": 2},
